@@ -20,6 +20,8 @@ type jsProg struct {
 
 var c10Polluters = []jsProg{
 	{"bindings-depth1", `_.bindings.a = 99; delete _.bindings.keep; return {};`},
+	{"bindings-arrays-of-scalars", `if (_.bindings.nums) { _.bindings.nums[0] = 9; _.bindings.nums.sort(); _.bindings.flags.reverse(); _.bindings.flags[1] = "changed"; } if (_.bindings["list!"]) { _.bindings["list!"][1] = "changed"; } return {};`},
+	{"bindings-arrays-of-scalars-then-throw", `if (_.bindings.nums) { _.bindings.nums[1] = 8; _.bindings.nums.reverse(); } throw "after";`},
 	{"bindings-depth2", `_.bindings.o.x = 99; return {};`},
 	{"bindings-depth3", `_.bindings.o.l[0].z = 99; _.bindings.o.l.push(7); return {};`},
 	{"bindings-go-typed", `_.bindings.tags[0] = "changed"; _.bindings.labels.a = "changed"; _.bindings.recs[0].k = 2; return {};`},
@@ -108,9 +110,17 @@ type c10Case struct {
 	Props string   `json:"props,omitempty"` // "" populated | nil | empty : the step properties the caller supplies
 	// Typed: the caller's bindings hold nothing but collections of Go types a JSON decoder does not produce
 	Typed bool `json:"typed,omitempty"`
+	// Plain: the caller's bindings hold nothing but what a JSON decoder produces (maps, arrays - also arrays of
+	// scalars only -, strings, float64 numbers, booleans, null)
+	Plain bool `json:"plain,omitempty"`
 }
 
 func (cs c10Case) bindings() match.Bindings {
+	if cs.Plain {
+		return match.Bindings{"a": 1.0, "keep": "k", "o": M{"x": 1.0, "l": []interface{}{M{"z": 1.0}, 2.0}},
+			"cfg!": M{"limit": 5.0, "deep": []interface{}{M{"z": 1.0}}}, "list!": []interface{}{"a", "b"},
+			"nums": []interface{}{3.0, 1.0, 2.0}, "flags": []interface{}{true, nil, "s"}}
+	}
 	if cs.Typed {
 		return match.Bindings{"keep": "k", "tags": []string{"x", "y"}, "labels": map[string]string{"a": "b"}, "nums": []int{1, 2}}
 	}
@@ -224,6 +234,10 @@ func C10(c *vh.Ctx) {
 				for _, p := range l {
 					o, _ := c10Run(interp, compiled, c10Case{Seq: []string{p.Name}, Via: via, Props: pv})
 					base[via+"/"+pv+"/"+p.Name] = o
+					if pv == "" {
+						o, _ := c10Run(interp, compiled, c10Case{Seq: []string{p.Name}, Via: via, Props: pv, Plain: true})
+						base["plain/"+via+"/"+pv+"/"+p.Name] = o
+					}
 				}
 			}
 		}
@@ -240,7 +254,13 @@ func C10(c *vh.Ctx) {
 		if cs.Typed {
 			return // only the caller's objects are judged here (the baselines are those of the usual bindings)
 		}
-		want := base[cs.Via+"/"+cs.Props+"/"+probe]
+		want, haveBase := base[cs.Via+"/"+cs.Props+"/"+probe]
+		if cs.Plain {
+			want, haveBase = base["plain/"+cs.Via+"/"+cs.Props+"/"+probe]
+		}
+		if !haveBase {
+			return // the last program is not a probe (a polluter run twice): only the caller's objects are judged
+		}
 		if os.Getenv("VERIF_DEBUG") != "" {
 			os.WriteFile("/tmp/c10dbg.log", []byte(fmt.Sprintf("LAST %+v\nWANT %+v\n", last, want)), 0o644)
 		}
@@ -258,7 +278,7 @@ func C10(c *vh.Ctx) {
 		}
 		return
 	}
-	c.Rule(fmt.Sprintf("%d polluting scripts (in-place mutation of bindings at depth 1-3 (also of the values of permanent '!' bindings), of nested and top-level props, implicit and this-globals, Object/Array/String prototypes, JSON/Math built-ins, replacing or freezing members of the environment object, editing what _.out and _.match returned, polluting then failing) x %d probes + %d self-probing scripts; every ordered pair (polluter, probe), every triple (polluter, polluter, probe), and every self-probing script twice; through Interpreter.Exec with a shared compiled program and through Spec.Walk; with fresh and with shared caller bindings/props objects (also bindings that hold nothing but collections of Go types a JSON decoder does not produce); pairs and self-probes also with nil and with empty step properties; plus walks of several messages in which an earlier message is consumed without moving the machine and a later one meets a guard that fails; oracle: the probe's bindings and emissions equal its solo result, the caller's bindings and props are snapshot-equal afterwards. non-trivial = every sequence.", len(c10Polluters), len(c10Probes), len(c10Self)))
+	c.Rule(fmt.Sprintf("%d polluting scripts (in-place mutation of bindings at depth 1-3 (also of the values of permanent '!' bindings), of nested and top-level props, implicit and this-globals, Object/Array/String prototypes, JSON/Math built-ins, replacing or freezing members of the environment object, editing what _.out and _.match returned, polluting then failing) x %d probes + %d self-probing scripts; every ordered pair (polluter, probe), every triple (polluter, polluter, probe), and every self-probing script twice; through Interpreter.Exec with a shared compiled program and through Spec.Walk; with fresh and with shared caller bindings/props objects (also bindings that hold nothing but collections of Go types a JSON decoder does not produce, and bindings that hold nothing but plain JSON values incl. arrays of scalars, which the scripts sort, reverse and assign into); pairs and self-probes also with nil and with empty step properties; plus walks of several messages in which an earlier message is consumed without moving the machine and a later one meets a guard that fails; oracle: the probe's bindings and emissions equal its solo result, the caller's bindings and props are snapshot-equal afterwards. non-trivial = every sequence.", len(c10Polluters), len(c10Probes), len(c10Self)))
 	var idx uint64
 	// the caller's bindings hold nothing but collections of Go types: whoever writes into them writes into a copy
 	for _, via := range []string{"exec", "walk"} {
@@ -266,6 +286,23 @@ func C10(c *vh.Ctx) {
 			idx++
 			if c.Mine(idx) {
 				one(c10Case{Seq: []string{pol, pol}, Via: via, Share: true, Typed: true})
+			}
+		}
+	}
+	// the caller's bindings hold nothing but plain JSON values (for which a copy could be skimped)
+	for _, via := range []string{"exec", "walk"} {
+		for _, share := range []bool{false, true} {
+			for _, p1 := range c10Polluters {
+				idx++
+				if c.Mine(idx) {
+					one(c10Case{Seq: []string{p1.Name, p1.Name}, Via: via, Share: share, Plain: true})
+				}
+				for _, q := range c10Probes {
+					idx++
+					if c.Mine(idx) {
+						one(c10Case{Seq: []string{p1.Name, q.Name}, Via: via, Share: share, Plain: true})
+					}
+				}
 			}
 		}
 	}
